@@ -1,7 +1,7 @@
 use std::env;
 use std::ffi::{CStr, CString};
 use std::fs::File;
-use std::io::{Read, Write};
+use std::io::Write;
 use std::os::unix::io::FromRawFd;
 use std::os::fd::RawFd;
 use std::process;
@@ -627,28 +627,13 @@ fn run_single_program(
             }
 
             if idx_cmd == pipes_count && options.capture_output {
-                let mut s_out = String::new();
-                let mut s_err = String::new();
-
-                unsafe {
-                    if let Some(fds) = fds_capture_stdout {
-                        libs::close(fds.1);
-
-                        let mut f = File::from_raw_fd(fds.0);
-                        match f.read_to_string(&mut s_out) {
-                            Ok(_) => {}
-                            Err(e) => println_stderr!("cicada: readstr: {}", e),
-                        }
-                    }
-                    if let Some(fds) = fds_capture_stderr {
-                        libs::close(fds.1);
-                        let mut f_err = File::from_raw_fd(fds.0);
-                        match f_err.read_to_string(&mut s_err) {
-                            Ok(_) => {}
-                            Err(e) => println_stderr!("cicada: readstr: {}", e),
-                        }
-                    }
+                for fds in [fds_capture_stdout, fds_capture_stderr].iter().copied().flatten() {
+                    libs::close(fds.1);
                 }
+                let (s_out, s_err) = read_captured(
+                    fds_capture_stdout.map(|fds| fds.0),
+                    fds_capture_stderr.map(|fds| fds.0),
+                );
 
                 *cmd_result = CommandResult {
                     gid: *pgid,
@@ -667,6 +652,55 @@ fn run_single_program(
             0
         }
     }
+}
+
+/// Drain the two capture pipes together: the child may fill either of them
+/// while we would be blocked reading the other one.
+fn read_captured(fd_out: Option<RawFd>, fd_err: Option<RawFd>) -> (String, String) {
+    let mut fds = [fd_out.unwrap_or(-1), fd_err.unwrap_or(-1)];
+    let mut bufs: [Vec<u8>; 2] = [Vec::new(), Vec::new()];
+    let mut chunk = [0u8; 4096];
+    while fds.iter().any(|fd| *fd >= 0) {
+        let mut pfds = [
+            libc::pollfd { fd: fds[0], events: libc::POLLIN, revents: 0 },
+            libc::pollfd { fd: fds[1], events: libc::POLLIN, revents: 0 },
+        ];
+        let n = unsafe { libc::poll(pfds.as_mut_ptr(), 2, -1) };
+        if n < 0 {
+            if nix::errno::Errno::last() == nix::errno::Errno::EINTR {
+                continue;
+            }
+            break;
+        }
+        for i in 0..2 {
+            if fds[i] < 0 || pfds[i].revents == 0 {
+                continue;
+            }
+            let r = unsafe {
+                libc::read(fds[i], chunk.as_mut_ptr() as *mut libc::c_void, chunk.len())
+            };
+            if r > 0 {
+                bufs[i].extend_from_slice(&chunk[..r as usize]);
+            } else if r == 0 || nix::errno::Errno::last() != nix::errno::Errno::EINTR {
+                libs::close(fds[i]);
+                fds[i] = -1;
+            }
+        }
+    }
+    for fd in fds.iter() {
+        if *fd >= 0 {
+            libs::close(*fd);
+        }
+    }
+    let [b_out, b_err] = bufs;
+    let to_string = |b: Vec<u8>| match String::from_utf8(b) {
+        Ok(s) => s,
+        Err(e) => {
+            println_stderr!("cicada: readstr: {}", e);
+            String::new()
+        }
+    };
+    (to_string(b_out), to_string(b_err))
 }
 
 fn try_run_func(
